@@ -60,6 +60,46 @@ def validate(args):
     return viols[-1] if viols else [], states, gen
 
 
+def validate_thread(args):
+    """the steps of the REAL journal thread (one per line) against JournalModel / JournalThreadTrace.tla
+    -> (violations [{p, run, k}], lines)"""
+    workdir, trace = args
+    flat = trace.replace(".ndjson", "-thread.ndjson")
+    n = 0
+    with open(flat, "w") as f:
+        for line in open(trace):
+            d = json.loads(line)
+            for k, st in enumerate(d.get("thread") or []):
+                st["k"] = k
+                f.write(json.dumps(st) + "\n")
+                n += 1
+    if n == 0:
+        return [], 0
+    out = common.tlc("JournalThreadTrace.tla", "JournalThreadTrace.cfg", workdir, env={"TRACE": flat}, workers=1, timeout=3600)
+    verdict = common.tlc_printed(out, "VERDICT")
+    viols = common.tlc_printed(out, "VIOL")
+    if not verdict or "Model checking completed. No error has been found." not in out or verdict[-1]["diameter"] - 1 != verdict[-1]["lines"]:
+        raise common.ToolError("journal thread trace validation did not complete on " + flat + ":\n" + out[-3000:])
+    return (viols[-1] if viols else []), n
+
+
+MC = {"quick": ["MC_Journal_S0.cfg"], "thorough": ["MC_Journal_S0.cfg", "MC_Journal_S1.cfg"]}
+
+
+def model_check(tier):
+    res = [common.model_check_cached("JournalModel.tla", c, ["JournalModel.tla"], workers=8, timeout=3 * 3600) for c in MC[tier]]
+    # anti-vacuity: the wrong design "the prune opens its reader before the writer is flushed" must be refuted by the same invariants
+    work = common.scratch()
+    try:
+        out = common.tlc("JournalModel.tla", "MC_Journal_bad.cfg", work, workers=4, timeout=600, deque=False)
+    finally:
+        shutil.rmtree(work, ignore_errors=True)
+    refuted = bool(re.search(r"Invariant (C12_OnlyDeadRemoved|C10_AckedIsDurable|C10_NothingLostOnTheWay) is violated", out))
+    if not refuted:
+        raise common.ToolError("the wrong variant of the journal thread (MC_Journal_bad.cfg) is not refuted: the invariants are vacuous\n" + out[-2000:])
+    return res, refuted
+
+
 def signature(v):
     sig = f"{v['p']}@{v['part']}"
     if v.get("loc"):
@@ -77,8 +117,32 @@ def run(pid, tier, seed):
             shards = list(ex.map(gen_shard, jobs))
         with cf.ThreadPoolExecutor(max_workers=max(2, common.NCPU // 2)) as ex:
             results = list(ex.map(validate, [(work, s[0]) for s in shards]))
+            thread_results = list(ex.map(validate_thread, [(work, s[0]) for s in shards]))
+        mc, refuted = model_check(tier)
         violations = []
         others = {}
+        divergences = {}
+        for (trace, cdir, _), (tviols, _) in zip(shards, thread_results):
+            seen = set()
+            for v in tviols:
+                if v["p"].startswith("AUX_"):
+                    divergences.setdefault(v["p"], set()).add(v["run"])
+                    continue
+                if (v["p"], v["run"]) in seen:
+                    continue
+                seen.add((v["p"], v["run"]))
+                if prop_of(v["p"]) != pid:
+                    others[v["p"]] = others.get(v["p"], 0) + 1
+                    continue
+                replay = {}
+                cf_ = os.path.join(cdir, f"run{v['run']}.json")
+                if os.path.exists(cf_):
+                    replay = json.load(open(cf_))
+                replay["engine"] = "journal"
+                violations.append({"formula": v["p"], "signature": v["p"] + "@thread", "replay": replay,
+                                   "detail": f"run {v['run']} journal thread step {v['k']}"})
+        for k, v in sorted(divergences.items()):
+            print(f"CONFORMANCE-DIVERGENCE (diagnostic, not a verdict): {k} on {len(v)} run(s): the real journal thread differs from JournalModel")
         for (trace, cdir, _), (viols, _, _) in zip(shards, results):
             first = {}
             for v in viols:
@@ -120,7 +184,10 @@ def run(pid, tier, seed):
             "journals": n_runs, "journal_records": records, "restores_at_record_boundaries": cuts,
             "torn_tail_restores": torn_n, "prunes": prune_n, "profiles": PROFILES,
             "violated_formulas_of_other_properties_seen": others,
-            "checker_cmd": "tlc -workers 1 -config JournalTrace.cfg JournalTrace.tla (TRACE=<shard>)",
+            "journal_thread": {"steps_of_the_real_thread_validated": sum(t[1] for t in thread_results),
+                               "conformance_divergences": {k: len(v) for k, v in divergences.items()},
+                               "model_checking": mc, "wrong_design_refuted": refuted},
+            "checker_cmd": "tlc -workers 1 -config JournalTrace.cfg JournalTrace.tla (TRACE=<shard>); tlc -workers 1 -config JournalThreadTrace.cfg JournalThreadTrace.tla (TRACE=<thread steps of the shard>); tlc -config MC_Journal_<inst>.cfg JournalModel.tla",
         }
         return {"level": "model_checking", "coverage": coverage, "violations": violations,
                 "assumptions": ["journals are those produced by the explored executions of the cluster simulation",
